@@ -210,7 +210,7 @@ var c13EntityKeys = []string{"uid", "parents", "attrs", "tags", "UID", "Parents"
 func runC13(c *vh.Ctx) {
 	g := vh.NewGen(c.Rng)
 	b := &vh.Batch{}
-	c.Res.Rule = "values (nesting <= 4, every extension type, longs at the int64 boundaries, strings and keys over all of Unicode incl. quote, backslash, U+2028, <>&), escape look-alike records, entities / entity maps / requests / Decision / Diagnostic: json.Marshal -> json.Unmarshal -> Equal and a byte-identical second Marshal; number literals 2^63, -2^63-1, floats and exponents must be rejected; every accepted spelling of one datum (explicit __entity/__extn, bare {fn,arg}, bare string, implicit {type,id}, schema-guided coercion against a generated schema) must decode to Equal values; every document is also decoded into a REUSED destination already holding other content of the same type (entity map, entity, request, uid, record, set, extension value, Value variable) and must give the same result and re-encoding as a fresh decode; entities / parent sets / entity maps over look-alike UIDs (distinct pairs with equal Type+ID or Type+'::'+ID concatenations, ids holding '::' and quotes, empty type or id) encoded 16 times over containers rebuilt in shuffled insertion orders must be byte-identical; second round (c13_ext.go): entity maps over UIDs whose String() order differs from their (type,id) order — array strictly increasing by UID.String(), model fed the map in shuffled order, decode+encode of own encodings / near-misses / documents with a duplicated UID (strict oracle: must be rejected); Diagnostic (nil, empty and filled slices, int boundaries) Marshal -> Unmarshal -> DeepEqual up to nil/empty, stable, near-miss table; Decision decoded from raw texts (escaped spellings, white space, unknown strings, non-strings, invalid JSON; strict oracle on the denoted string); nested coercion: types of depth <= 4, a spelling drawn independently at every typed leaf, must decode (unguided + coerceValue, and Entity.UnmarshalJSONWithSchema) to the datum; correspondence of encodeValue/decodeValue/entity/request codecs (Lean model at JSON-tree level) with the Go codecs on generated documents and on near-miss documents (accept/reject and decoded value). distinct = distinct canonical documents / values; non-trivial = value or document with at least one container, escape or extension value"
+	c.Res.Rule = "values (nesting <= 4, every extension type, longs at the int64 boundaries, strings and keys over all of Unicode incl. quote, backslash, U+2028, <>&), escape look-alike records, entities / entity maps / requests / Decision / Diagnostic: json.Marshal -> json.Unmarshal -> Equal and a byte-identical second Marshal; number literals 2^63, -2^63-1, floats and exponents must be rejected; every accepted spelling of one datum (explicit __entity/__extn, bare {fn,arg}, bare string, implicit {type,id}, schema-guided coercion against a generated schema) must decode to Equal values; every document is also decoded into a REUSED destination already holding other content of the same type (entity map, entity, request, uid, record, set, extension value, Value variable) and must give the same result and re-encoding as a fresh decode; entities / parent sets / entity maps over look-alike UIDs (distinct pairs with equal Type+ID or Type+'::'+ID concatenations, ids holding '::' and quotes, empty type or id) encoded 16 times over containers rebuilt in shuffled insertion orders must be byte-identical; second round (c13_ext.go): entity maps over UIDs whose String() order differs from their (type,id) order — array strictly increasing by UID.String(), model fed the map in shuffled order, decode+encode of own encodings (also with the array members shuffled) / near-misses / documents with a duplicated UID (strict oracle: must be rejected; table with look-alike UIDs, two spellings of one UID, null members); Diagnostic (nil, empty and filled slices, int boundaries) Marshal -> Unmarshal -> DeepEqual up to nil/empty, stable, near-miss table; Decision decoded from raw texts into a fresh and into a reused receiver (escaped spellings, white space, unknown strings, non-strings, null, invalid JSON; strict oracle on the denoted string: allow / deny however spelled, everything else an error, null a no-op); nested coercion: types of depth <= 4, a spelling drawn independently at every typed leaf, must decode (unguided + coerceValue, and Entity.UnmarshalJSONWithSchema) to the datum; correspondence of encodeValue/decodeValue/entity/request codecs (Lean model at JSON-tree level) with the Go codecs on generated documents and on near-miss documents (accept/reject and decoded value). distinct = distinct canonical documents / values; non-trivial = value or document with at least one container, escape or extension value"
 
 	c13ReuseStart(c)
 	defer func() { c13R = nil }()
